@@ -68,6 +68,15 @@ const Matrix<double>& FullHmmTransitionMatrix::getPij() const
         pij_(i, j) = vSimplex_[i].prob(j);
       }
     }
+
+    // The flag covers both the matrix and the equilibrium frequencies: update them together.
+    MatrixTools::pow(pij_, 256, tmpmat_);
+
+    for (size_t i = 0; i < vSimplex_.size(); ++i)
+    {
+      eqFreq_[i] = tmpmat_(0, i);
+    }
+
     upToDate_ = true;
   }
 
@@ -76,22 +85,7 @@ const Matrix<double>& FullHmmTransitionMatrix::getPij() const
 
 const std::vector<double>& FullHmmTransitionMatrix::getEquilibriumFrequencies() const
 {
-  size_t salph = getNumberOfStates();
-
-  if (!upToDate_)
-  {
-    pij_ = getPij();
-
-    MatrixTools::pow(pij_, 256, tmpmat_);
-
-    for (size_t i = 0; i < salph; ++i)
-    {
-      eqFreq_[i] = tmpmat_(0, i);
-    }
-
-    upToDate_ = true;
-  }
-
+  getPij();
   return eqFreq_;
 }
 
